@@ -386,6 +386,23 @@ func c15HookRun(t *fw.T, k int, name, ctor string, data []byte) (checked int) {
 
 var c15Illegal = []string{"@", "\x01", "‰", "\x7f"}
 
+// in JavaScript a backslash outside a string, template, regular expression or well-formed \u escape is illegal too
+var c15IllegalJS = append(append([]string{}, c15Illegal...), "\\")
+
+func c15EscapeFollows(rest []byte) bool {
+	if len(rest) < 2 || rest[0] != 'u' {
+		return false
+	}
+	if rest[1] == '{' {
+		return true
+	}
+	n := 0
+	for n < 4 && 1+n < len(rest) && (rest[1+n] >= '0' && rest[1+n] <= '9' || rest[1+n]|0x20 >= 'a' && rest[1+n]|0x20 <= 'f') {
+		n++
+	}
+	return n == 4
+}
+
 type c15InsCase struct {
 	Lang   string `json:"lang"`
 	Doc    fw.B   `json:"doc"`
@@ -509,14 +526,20 @@ func c15InsJS(t *fw.T) {
 	pts := c15Points(starts, ends, len(doc))
 	for pi, at := range pts {
 		// all four characters at a few points, one (rotating) at the others
-		chars := []string{c15Illegal[(pi+t.Index)%len(c15Illegal)]}
+		chars := []string{c15IllegalJS[(pi+t.Index)%len(c15IllegalJS)]}
 		if pi%8 == 0 {
-			chars = c15Illegal
+			chars = c15IllegalJS
 		}
 		for _, ins := range chars {
+			if ins == "\\" && c15EscapeFollows(doc[at:]) {
+				continue // the backslash would start a well-formed \u escape of an identifier
+			}
 			mod := c15Insert(doc, at, ins)
 			a := at
 			cs.At, cs.Insert = &a, ins
+			if ins == "\\" {
+				t.Count("js.insertions.backslash", 1)
+			}
 			if p := fw.Guard(func() { _, err = js.Parse(parse.NewInputBytes(append([]byte(nil), mod...)), o) }); p != "" {
 				t.Failf("js.Parse on %s: %s", fw.Q(mod), p)
 				return
